@@ -265,6 +265,27 @@ def report(prop, tier, cfgs, results, shared, builts, build_errors, compile_viol
             print('VIOLATION property=%s replay=%s%s' % (prop, path, '' if nat and nat.get('reproduced') else ' no-failing-input-found'))
             print('  obligation %s in %s/%s (small_vector.hpp:%s): %s | %s' % (f['property'], r['cfg'], r['fn'], r.get('lines'), f['description'][:160], f.get('clause') or ''))
             exit_code = 1
+        extra_rows = None
+        if prop == 'C13':
+            # second sentence of C13 (conversions in the byte-copy paths): c13/conv.py
+            sys.path.insert(0, os.path.join(ROOT, 'c13'))
+            import conv
+            cr = conv.run(tier)
+            obligations += cr['obligations']; discharged += cr['discharged']
+            undecided.extend(cr['undecided'])
+            extra_rows = {'conversion_grid_pairs_on_byte_copy_path': cr['rows'], 'conversion_grid_solver_s': cr['solver_s']}
+            for v in cr['violations']:
+                kf = [k for k in known if k.get('status') == 'known' and k.get('property') == 'C13' and k.get('match', {}).get('conv_key') == v['key']]
+                if kf:
+                    obligations -= 1
+                    if kf[0]['id'] not in printed:
+                        printed.add(kf[0]['id'])
+                        print('KNOWN-FINDING: property=C13 %s [%s]' % (kf[0]['what'], kf[0]['id']))
+                    continue
+                print('VIOLATION property=C13 replay=%s%s' % (v['replay'], '' if v['reproduced'] else ' no-failing-input-found'))
+                print('  ' + v['what'][:400])
+                violations.append((None, v))
+                exit_code = 1
         if undecided and exit_code == 0:
             exit_code = 2
         for u in undecided:
@@ -287,6 +308,7 @@ def report(prop, tier, cfgs, results, shared, builts, build_errors, compile_viol
                 'known_findings_hit': sorted({k['id'] for k, _, _ in known_hits}),
                 'known_finding_obligations': [{'id': k['id'], 'function': r['fn'], 'configuration': r['cfg'], 'obligation': f['property'], 'clause': f.get('clause')} for k, r, f in known_hits],
                 'bounded_stand_ins': [],
+                'conversion_grid': extra_rows,
                 'explanation': 'Obligations are CBMC properties (contract clauses, loop-invariant base/step, assigns, automatic arithmetic and pointer checks, environment preconditions) tagged with this property, over the C text extracted from /repo on this run. Each proof is complete for all inputs of its configuration class (loops closed by loop contracts; no unwinding bound).',
             },
             'assumptions': ASSUMPTIONS,
